@@ -503,8 +503,9 @@ func (p *proxyConn) writeResponse(res *http.Response) error {
 		// If the event is larger than the buffer, the event will be split into multiple chunks.
 		switch {
 		case isTextEventStream(res):
-			w := newPatternFlushWriter(p.brw.Writer, p.brw.Writer, sseFlushPattern)
-			err = res.Write(w)
+			// Events end with a blank line, and lines end with LF, CR or CRLF: relay every piece of the stream
+			// as it arrives instead of looking for one of the spellings (as httputil.ReverseProxy does).
+			err = res.Write(flushAfterWriter{p.brw.Writer, p.brw.Writer})
 		case unchunked:
 			// There is no chunk framing to detect, relay every piece of the body as it arrives.
 			err = res.Write(flushAfterWriter{p.brw.Writer, p.brw.Writer})
